@@ -462,6 +462,12 @@ func apiReplay(h apiHist) ([]core.Finding, []string) {
 			w.held = append(w.held, held)
 			if held.bytes != nil && (st.Op == "Example" || st.Op == "OpenAPI") {
 				alias = pools.aliasOf(held.bytes)
+				if alias >= 0 {
+					// Pools!NoLiveAlias evaluated on the state observed through the hooks, for every history (PoolsTrace
+					// validates the whole event sequence of the traced ones): what was handed out is pool memory
+					fs = append(fs, core.Finding{Class: "api:result-aliases-pooled-buffer:" + st.Op + ":" + w.content[st.Obj],
+						What: fmt.Sprintf("step %d %s(%s=%s): the bytes returned lie inside pooled buffer #%d, which the next user of the pool overwrites", i, st.Op, st.Obj, w.content[st.Obj], alias)})
+				}
 			}
 		}
 		pools.emit(fmt.Sprintf(`{"ev":"ret","g":0,"alias":%d,"same":%v,"buf":0}`, alias, same))
